@@ -369,4 +369,12 @@ def run(chk, tier):
     c03.endianness_purity(chk, fx)
     from . import shared
     shared.value_reader_codec_calls(chk, fx, "value-reader-codec-calls")
+    # a stream is rewritten byte for byte only if each header is written in the form it was read in (C03), each declared length is the
+    # number of bytes written (C04) and the eager reader's positions / kept lengths are right (C07): those clauses are part of C02
+    shared.import_rules(chk, tier, "C04", {"padding-byte", "bytes-written", "unit-width", "even-round", "date-time-width", "writer-text-identity", "fragment-lengths-explicit"},
+                        "declared lengths == bytes written", 130)
+    shared.import_rules(chk, tier, "C03", {"vr-header-form", "header-layout", "header-bytes-read", "u16-length-guard", "vr-code", "unknown-vr-un"},
+                        "encoder and decoder agree on every header form", 280)
+    shared.import_rules(chk, tier, "C07", {"sanitize-length", "length-provenance", "position-accounting"}, "position of the eager reader", 36,
+                        only=lambda i: i["rule"] == "position-accounting" or i["fn"] == "eager")
     chk.undecided.append("byte equality of rewritten streams (needs an independent reference encoder and execution); nested length staleness after in-place edits is a documented limitation of NoChange")
